@@ -2,6 +2,7 @@
    line `op K T args… = results…` printed by harness/h_recint.cpp (K = size, T = __RECINT_THRESHOLD_KARA as compiled). -/
 import Driver.Common
 import GivaroModel.Model.RecInt
+import GivaroModel.Model.RecIntSigned
 import GivaroModel.Spec.RecIntSpec
 import GivaroModel.Spec.RecIntMixedSpec
 -- @driver-mode recint Driver.RecInt.recintLine
@@ -73,6 +74,7 @@ def recintModel (op : String) (n t : Nat) (a : List Nat) : Option (List Int) :=
   | "bits", [x] => some [bi (highest_bit (U x)), bi (lowest_bit (U x)), vi (set_highest_bit (U x)), vi (set_lowest_bit (U x))]
   | "gcd", [x, y] => some [vi (gcd t (U x) (U y))]
   | "invmod", [x, y] => some [vi (inv_mod t (U x) (U y))]
+  | "bezout", [x, y] => let r := bezout_mod t (U x) (U y); some [vi r.1, vi r.2]
   | "expmod", [x, e, y] => some [vi (exp_mod t (U x) (U e) (U y))]
   | "expmodl", [x, e, y] => some [vi (exp_mod_l t (U x) e (U y))]
   | "arazi", [x] => some [vi (arazi_qi t (U x))]
